@@ -2,6 +2,9 @@ import NurbsVerif.Lemmas.Affine
 import NurbsVerif.Lemmas.SurfLift
 import NurbsVerif.Model.Transform
 import NurbsVerif.Lemmas.AffineMaps
+import NurbsVerif.Lemmas.AffineAssembleKinds
+import NurbsVerif.Lemmas.AffineAssembleSeq
+import NurbsVerif.Lemmas.AffineAssembleWitness
 
 /-!
 # C10  Translation, rotation and scaling act on the shape as on its points
@@ -243,5 +246,285 @@ example : project (volumePointAt 1 1 1 (fnOf ([0,0,1,1] : List ℚ)) (fnOf ([0,0
     (by omega) (by omega) (by omega) (by omega) (by omega) (by omega)
   · intro pt hpt; simp [exVol] at hpt; rcases hpt with h|h|h|h|h|h|h|h <;> simp [h]
   · intro pt hpt; simp [exVol] at hpt; rcases hpt with h|h|h|h|h|h|h|h <;> simp [h]
+
+/-! ## END-TO-END: the model functions `translate`, `scale`, `rotate` on a `Shape`, evaluated through the
+    span search (`curvePoint` / `surfacePoint` / `volumePoint`), on the whole closed domain
+
+    `Shape.pointAt S t` is the evaluated point of the curve / surface / volume `S` at the parameter tuple
+    `(t 0, t 1, t 2)`, projected when `S` is rational – literally the expression the model's `startPoint`
+    evaluates.  `ShapeWF d S`: 1–3 parametric directions, each with a well-formed knot function
+    (non-decreasing, at least degree + 1 control points, non-empty last span), the net has the right number
+    of points with `d` (`d + 1` when rational) coordinates, weights of a rational shape positive.
+    `S.InDom t`: every `t i` lies in the closed domain `[U_p, U_n]` of its direction. -/
+
+/-- `Shape.pointAt` of a curve shape is `curvePoint` on the shape's data (projected when rational).
+    (Unfolding lemma: it ties the auxiliary definition to the model's evaluation function.) -/
+theorem pointAt_is_curve_point (S : Shape K) (t : ℕ → K) (h1 : S.pdim = 1) :
+    S.pointAt t = if S.rat then project (curvePoint (S.deg 0) (fnOf (S.kv 0)) S.net (t 0))
+      else curvePoint (S.deg 0) (fnOf (S.kv 0)) S.net (t 0) :=
+  pointAt_curve S t h1
+
+/-- `Shape.pointAt` of a surface shape is `surfacePoint` (projected when rational).  (Unfolding lemma.) -/
+theorem pointAt_is_surface_point (S : Shape K) (t : ℕ → K) (h2 : S.pdim = 2) :
+    S.pointAt t =
+      if S.rat then project (surfacePoint (S.deg 0) (S.deg 1) (fnOf (S.kv 0)) (fnOf (S.kv 1)) (S.size 0) (S.size 1) S.net (t 0) (t 1))
+      else surfacePoint (S.deg 0) (S.deg 1) (fnOf (S.kv 0)) (fnOf (S.kv 1)) (S.size 0) (S.size 1) S.net (t 0) (t 1) :=
+  pointAt_surface S t h2
+
+/-- `Shape.pointAt` of a volume shape is `volumePoint` (projected when rational).  (Unfolding lemma.) -/
+theorem pointAt_is_volume_point (S : Shape K) (t : ℕ → K) (h3 : S.pdim = 3) :
+    S.pointAt t =
+      if S.rat then project (volumePoint (S.deg 0) (S.deg 1) (S.deg 2) (fnOf (S.kv 0)) (fnOf (S.kv 1)) (fnOf (S.kv 2))
+        (S.size 0) (S.size 1) (S.size 2) S.net (t 0) (t 1) (t 2))
+      else volumePoint (S.deg 0) (S.deg 1) (S.deg 2) (fnOf (S.kv 0)) (fnOf (S.kv 1)) (fnOf (S.kv 2))
+        (S.size 0) (S.size 1) (S.size 2) S.net (t 0) (t 1) (t 2) :=
+  pointAt_volume S t h3
+
+/-- **The rotation centre** of the model (`startPoint`) is the evaluated point at the start `U_p` of the
+    domain of every direction, and that parameter tuple lies in the domain of a well-formed shape.
+    (First component: the definition itself, `rfl`.) -/
+theorem startPoint_is_evaluated_domain_start (S : Shape K) :
+    startPoint S = S.pointAt (fun i => fnOf (S.kv i) (S.deg i)) ∧
+    ∀ d, ShapeWF d S → S.InDom (fun i => fnOf (S.kv i) (S.deg i)) :=
+  ⟨startPoint_eq_pointAt S, fun _ h => h.domStart_inDom⟩
+
+/-- For a shape whose knot functions are clamped in every direction the rotation centre is the first
+    control point (projected when rational). -/
+theorem startPoint_of_clamped_shape {d : ℕ} {S : Shape K} (h : ShapeWF d S)
+    (hc : ∀ i, i < S.pdim → ClampedOk (S.deg i) (fnOf (S.kv i)) (S.size i)) :
+    startPoint S = if S.rat then project (ptsGet S.net 0) else ptsGet S.net 0 :=
+  startPoint_clamped h hc
+
+/-- **Any affine map of the coordinates** applied to the control points the way the library does it
+    (`Shape.mapPts`: Cartesian part of every control point, weight kept) moves every evaluated point of the
+    closed domain by that map – curves, surfaces and volumes, rational or not, through the span search. -/
+theorem transformed_shape_point {d : ℕ} {S : Shape K} (h : ShapeWF d S) (f : List K → List K) (A : ℕ → ℕ → K)
+    (b : ℕ → K) (hf : AffOn d f A b) (t : ℕ → K) (ht : S.InDom t) : (S.mapPts f).pointAt t = f (S.pointAt t) :=
+  mapPts_pointAt h f A b hf t ht
+
+/-- Rational shapes in homogeneous terms: the weight coordinate of the evaluated homogeneous point
+    (`Shape.homAt`, the point before projection) is unchanged and positive, and the projected point moves
+    by the map. -/
+theorem transformed_rational_shape_point {d : ℕ} {S : Shape K} (h : ShapeWF d S) (hr : S.rat = true)
+    (f : List K → List K) (A : ℕ → ℕ → K) (b : ℕ → K) (hf : AffOn d f A b) (t : ℕ → K) (ht : S.InDom t) :
+    ((S.mapPts f).homAt t).getD d 0 = (S.homAt t).getD d 0 ∧ 0 < (S.homAt t).getD d 0 ∧
+    project ((S.mapPts f).homAt t) = f (project (S.homAt t)) :=
+  mapPts_homAt_rat h hr f A b hf t ht
+
+/-- **`translate`, end to end**: every evaluated point of `translate S v` is the point of `S` plus `v`
+    (`translatePt v pt = zipWith (+) pt v`, coordinatewise by `translatePt_getD`). -/
+theorem translate_moves_every_point {d : ℕ} {S : Shape K} (h : ShapeWF d S) (v : List K) (hv : v.length = d)
+    (t : ℕ → K) (ht : S.InDom t) : (translate S v).pointAt t = translatePt v (S.pointAt t) :=
+  translate_pointAt h v hv t ht
+
+/-- **`scale`, end to end**: every evaluated point of `scale S m` is `m` times the point of `S`
+    (`scalePt m pt = pt.map (· * m)`). -/
+theorem scale_moves_every_point {d : ℕ} {S : Shape K} (h : ShapeWF d S) (m : K)
+    (t : ℕ → K) (ht : S.InDom t) : (scale S m).pointAt t = scalePt m (S.pointAt t) :=
+  scale_pointAt h m t ht
+
+/-- **`rotate`, end to end** (2-D and 3-D shapes, ANY numbers `c`, `s`): every evaluated point of
+    `rotate S axis c s` is the point of `S` moved by the model's rotation about the evaluated start point
+    (`rotateAbout`: subtract the centre, apply the rotation formulas of the axis, add the centre). -/
+theorem rotate_moves_every_point {d : ℕ} {S : Shape K} (h : ShapeWF d S) (hd : d = 2 ∨ d = 3) (axis : ℕ) (c s : K)
+    (t : ℕ → K) (ht : S.InDom t) :
+    (rotate S axis c s).pointAt t = rotateAbout axis c s (startPoint S) (S.pointAt t) :=
+  rotate_pointAt h hd axis c s t ht
+
+/-- The rotation map in coordinates: `o + R (x − o)` with the rotation matrix `rotMat` of the axis
+    (2-D points: always the z axis). -/
+theorem rotation_map_coordinates (d : ℕ) (hd : d = 2 ∨ d = 3) (axis : ℕ) (c s : K) (o pt : List K)
+    (ho : o.length = d) (hpt : pt.length = d) (j : ℕ) (hj : j < d) :
+    (rotateAbout axis c s o pt).getD j 0
+      = o.getD j 0 + ∑ l ∈ range d, rotMat (if d = 2 then 2 else axis) c s j l * (pt.getD l 0 - o.getD l 0) :=
+  rotateAbout_getD d hd axis c s o pt ho hpt j hj
+
+/-- The centre stays where it is: the start point of the rotated shape is the start point of the
+    original one (for any `c`, `s`). -/
+theorem rotate_fixes_start_point {d : ℕ} {S : Shape K} (h : ShapeWF d S) (hd : d = 2 ∨ d = 3) (axis : ℕ) (c s : K) :
+    startPoint (rotate S axis c s) = startPoint S :=
+  rotate_startPoint h hd axis c s
+
+/-- The transformed shapes are again well-formed shapes with the same degrees, knot vectors and sizes
+    (so the same domain). -/
+theorem transforms_keep_wellformedness {d : ℕ} {S : Shape K} (h : ShapeWF d S) :
+    (∀ v : List K, v.length = d → ShapeWF d (translate S v) ∧ (translate S v).kvs = S.kvs ∧
+      (translate S v).degs = S.degs ∧ (translate S v).sizes = S.sizes ∧ (translate S v).rat = S.rat) ∧
+    (∀ m : K, ShapeWF d (scale S m) ∧ (scale S m).kvs = S.kvs ∧ (scale S m).degs = S.degs ∧
+      (scale S m).sizes = S.sizes ∧ (scale S m).rat = S.rat) ∧
+    (∀ (axis : ℕ) (c s : K), d = 2 ∨ d = 3 → ShapeWF d (rotate S axis c s) ∧ (rotate S axis c s).kvs = S.kvs ∧
+      (rotate S axis c s).degs = S.degs ∧ (rotate S axis c s).sizes = S.sizes ∧ (rotate S axis c s).rat = S.rat) :=
+  ⟨fun v hv => ⟨translate_wf h v hv, rfl, rfl, rfl, rfl⟩, fun m => ⟨scale_wf h m, rfl, rfl, rfl, rfl⟩,
+    fun axis c s hd => ⟨rotate_wf h hd axis c s, rfl, rfl, rfl, rfl⟩⟩
+
+/-- **Weights unchanged** (rational shapes): the three transformations keep the number of control points
+    and the weight coordinate of every homogeneous control point. -/
+theorem transforms_keep_weights {d : ℕ} {S : Shape K} (h : ShapeWF d S) (hr : S.rat = true) :
+    (∀ v : List K, v.length = d → (translate S v).net.length = S.net.length ∧
+      ∀ i, i < S.net.length → (ptsGet (translate S v).net i).getD d 0 = (ptsGet S.net i).getD d 0) ∧
+    (∀ m : K, (scale S m).net.length = S.net.length ∧
+      ∀ i, i < S.net.length → (ptsGet (scale S m).net i).getD d 0 = (ptsGet S.net i).getD d 0) ∧
+    (∀ (axis : ℕ) (c s : K), d = 2 ∨ d = 3 → (rotate S axis c s).net.length = S.net.length ∧
+      ∀ i, i < S.net.length → (ptsGet (rotate S axis c s).net i).getD d 0 = (ptsGet S.net i).getD d 0) :=
+  ⟨fun v hv => translate_weights h hr v hv, fun m => scale_weights h hr m,
+    fun axis c s hd => rotate_weights h hr hd axis c s⟩
+
+/-! ### the same, spelled out per kind of shape in terms of `curvePoint` / `surfacePoint` / `volumePoint`
+    (`crvEval S u`, `surfEval S u v`, `volEval S u v w` are these functions on the shape's degrees, knot
+    functions, sizes and net) -/
+
+/-- **Non-rational curves**, every parameter of the closed domain. -/
+theorem curve_transforms_end_to_end {d : ℕ} {S : Shape K} (h : ShapeWF d S) (h1 : S.pdim = 1) (hr : S.rat = false) (u : K)
+    (hu1 : fnOf (S.kv 0) (S.deg 0) ≤ u) (hu2 : u ≤ fnOf (S.kv 0) (S.size 0)) :
+    (∀ v : List K, v.length = d → curvePoint (S.deg 0) (fnOf (S.kv 0)) (translate S v).net u
+        = translatePt v (curvePoint (S.deg 0) (fnOf (S.kv 0)) S.net u)) ∧
+    (∀ m : K, curvePoint (S.deg 0) (fnOf (S.kv 0)) (scale S m).net u
+        = scalePt m (curvePoint (S.deg 0) (fnOf (S.kv 0)) S.net u)) ∧
+    (∀ (axis : ℕ) (c s : K), d = 2 ∨ d = 3 → curvePoint (S.deg 0) (fnOf (S.kv 0)) (rotate S axis c s).net u
+        = rotateAbout axis c s (startPoint S) (curvePoint (S.deg 0) (fnOf (S.kv 0)) S.net u)) :=
+  curve_transforms h h1 hr u hu1 hu2
+
+/-- **Rational curves** (positive weights): the projected points. -/
+theorem rational_curve_transforms_end_to_end {d : ℕ} {S : Shape K} (h : ShapeWF d S) (h1 : S.pdim = 1) (hr : S.rat = true)
+    (u : K) (hu1 : fnOf (S.kv 0) (S.deg 0) ≤ u) (hu2 : u ≤ fnOf (S.kv 0) (S.size 0)) :
+    (∀ v : List K, v.length = d → project (curvePoint (S.deg 0) (fnOf (S.kv 0)) (translate S v).net u)
+        = translatePt v (project (curvePoint (S.deg 0) (fnOf (S.kv 0)) S.net u))) ∧
+    (∀ m : K, project (curvePoint (S.deg 0) (fnOf (S.kv 0)) (scale S m).net u)
+        = scalePt m (project (curvePoint (S.deg 0) (fnOf (S.kv 0)) S.net u))) ∧
+    (∀ (axis : ℕ) (c s : K), d = 2 ∨ d = 3 → project (curvePoint (S.deg 0) (fnOf (S.kv 0)) (rotate S axis c s).net u)
+        = rotateAbout axis c s (startPoint S) (project (curvePoint (S.deg 0) (fnOf (S.kv 0)) S.net u))) :=
+  rational_curve_transforms h h1 hr u hu1 hu2
+
+/-- **Non-rational surfaces**, every parameter pair of the closed domain rectangle. -/
+theorem surface_transforms_end_to_end {d : ℕ} {S : Shape K} (h : ShapeWF d S) (h2 : S.pdim = 2) (hr : S.rat = false) (u v : K)
+    (hu1 : fnOf (S.kv 0) (S.deg 0) ≤ u) (hu2 : u ≤ fnOf (S.kv 0) (S.size 0))
+    (hv1 : fnOf (S.kv 1) (S.deg 1) ≤ v) (hv2 : v ≤ fnOf (S.kv 1) (S.size 1)) :
+    (∀ vec : List K, vec.length = d → surfEval (translate S vec) u v = translatePt vec (surfEval S u v)) ∧
+    (∀ m : K, surfEval (scale S m) u v = scalePt m (surfEval S u v)) ∧
+    (∀ (axis : ℕ) (c s : K), d = 2 ∨ d = 3 →
+      surfEval (rotate S axis c s) u v = rotateAbout axis c s (startPoint S) (surfEval S u v)) :=
+  surface_transforms h h2 hr u v hu1 hu2 hv1 hv2
+
+/-- **Rational surfaces** (positive weights): the projected points. -/
+theorem rational_surface_transforms_end_to_end {d : ℕ} {S : Shape K} (h : ShapeWF d S) (h2 : S.pdim = 2) (hr : S.rat = true)
+    (u v : K) (hu1 : fnOf (S.kv 0) (S.deg 0) ≤ u) (hu2 : u ≤ fnOf (S.kv 0) (S.size 0))
+    (hv1 : fnOf (S.kv 1) (S.deg 1) ≤ v) (hv2 : v ≤ fnOf (S.kv 1) (S.size 1)) :
+    (∀ vec : List K, vec.length = d →
+      project (surfEval (translate S vec) u v) = translatePt vec (project (surfEval S u v))) ∧
+    (∀ m : K, project (surfEval (scale S m) u v) = scalePt m (project (surfEval S u v))) ∧
+    (∀ (axis : ℕ) (c s : K), d = 2 ∨ d = 3 →
+      project (surfEval (rotate S axis c s) u v) = rotateAbout axis c s (startPoint S) (project (surfEval S u v))) :=
+  rational_surface_transforms h h2 hr u v hu1 hu2 hv1 hv2
+
+/-- **Non-rational volumes**, every parameter triple of the closed domain box. -/
+theorem volume_transforms_end_to_end {d : ℕ} {S : Shape K} (h : ShapeWF d S) (h3 : S.pdim = 3) (hr : S.rat = false) (u v w : K)
+    (hu1 : fnOf (S.kv 0) (S.deg 0) ≤ u) (hu2 : u ≤ fnOf (S.kv 0) (S.size 0))
+    (hv1 : fnOf (S.kv 1) (S.deg 1) ≤ v) (hv2 : v ≤ fnOf (S.kv 1) (S.size 1))
+    (hw1 : fnOf (S.kv 2) (S.deg 2) ≤ w) (hw2 : w ≤ fnOf (S.kv 2) (S.size 2)) :
+    (∀ vec : List K, vec.length = d → volEval (translate S vec) u v w = translatePt vec (volEval S u v w)) ∧
+    (∀ m : K, volEval (scale S m) u v w = scalePt m (volEval S u v w)) ∧
+    (∀ (axis : ℕ) (c s : K), d = 2 ∨ d = 3 →
+      volEval (rotate S axis c s) u v w = rotateAbout axis c s (startPoint S) (volEval S u v w)) :=
+  volume_transforms h h3 hr u v w hu1 hu2 hv1 hv2 hw1 hw2
+
+/-- **Rational volumes** (positive weights): the projected points. -/
+theorem rational_volume_transforms_end_to_end {d : ℕ} {S : Shape K} (h : ShapeWF d S) (h3 : S.pdim = 3) (hr : S.rat = true)
+    (u v w : K) (hu1 : fnOf (S.kv 0) (S.deg 0) ≤ u) (hu2 : u ≤ fnOf (S.kv 0) (S.size 0))
+    (hv1 : fnOf (S.kv 1) (S.deg 1) ≤ v) (hv2 : v ≤ fnOf (S.kv 1) (S.size 1))
+    (hw1 : fnOf (S.kv 2) (S.deg 2) ≤ w) (hw2 : w ≤ fnOf (S.kv 2) (S.size 2)) :
+    (∀ vec : List K, vec.length = d →
+      project (volEval (translate S vec) u v w) = translatePt vec (project (volEval S u v w))) ∧
+    (∀ m : K, project (volEval (scale S m) u v w) = scalePt m (project (volEval S u v w))) ∧
+    (∀ (axis : ℕ) (c s : K), d = 2 ∨ d = 3 →
+      project (volEval (rotate S axis c s) u v w)
+        = rotateAbout axis c s (startPoint S) (project (volEval S u v w))) :=
+  rational_volume_transforms h h3 hr u v w hu1 hu2 hv1 hv2 hw1 hw2
+
+/-! ### any finite sequence of calls
+    `Xform K`: one call (`translate v`, `scale m`, `rotate axis c s`); `x.apply S` is the model function applied
+    to `S`; `applyAll S xs` applies the calls in order; `x.ptMap S` is what the call does to a point of `S`
+    (`translatePt v`, `scalePt m`, `rotateAbout axis c s (startPoint S)`); `ptMapAll S xs` composes these,
+    each taken at the shape it is applied to; `x.Ok d`: the vector has `d` entries / rotations need `d ∈ {2,3}`. -/
+
+/-- **Composition**: after any finite sequence of the three transformations every evaluated point of the
+    closed domain is the original point moved by the composed point map. -/
+theorem sequence_moves_every_point {d : ℕ} (xs : List (Xform K)) {S : Shape K} (h : ShapeWF d S)
+    (hx : ∀ x ∈ xs, x.Ok d) (t : ℕ → K) (ht : S.InDom t) :
+    (applyAll S xs).pointAt t = ptMapAll S xs (S.pointAt t) :=
+  applyAll_pointAt xs h hx t ht
+
+/-- The composed point map is one affine map `x ↦ A x + b` of the coordinates. -/
+theorem sequence_map_is_affine {d : ℕ} (xs : List (Xform K)) {S : Shape K} (h : ShapeWF d S) (hx : ∀ x ∈ xs, x.Ok d) :
+    ∃ A b, AffOn d (ptMapAll S xs) A b :=
+  ptMapAll_affOn xs h hx
+
+/-- The centre of a further rotation (the start point of the shape after the sequence) is the image of the
+    original start point under the composed map; the result is a well-formed shape. -/
+theorem sequence_start_point {d : ℕ} (xs : List (Xform K)) {S : Shape K} (h : ShapeWF d S) (hx : ∀ x ∈ xs, x.Ok d) :
+    startPoint (applyAll S xs) = ptMapAll S xs (startPoint S) ∧ ShapeWF d (applyAll S xs) :=
+  ⟨applyAll_startPoint xs h hx, applyAll_wf xs h hx⟩
+
+/-- A sequence of calls changes neither the rational flag nor degrees, knot vectors, sizes, and – for a
+    rational shape – keeps the weight of every control point. -/
+theorem sequence_keeps_knots_and_weights {d : ℕ} (xs : List (Xform K)) {S : Shape K} (h : ShapeWF d S)
+    (hx : ∀ x ∈ xs, x.Ok d) :
+    ((applyAll S xs).rat = S.rat ∧ (applyAll S xs).degs = S.degs ∧ (applyAll S xs).kvs = S.kvs ∧
+      (applyAll S xs).sizes = S.sizes) ∧
+    (S.rat = true → (applyAll S xs).net.length = S.net.length ∧
+      ∀ i, i < S.net.length → (ptsGet (applyAll S xs).net i).getD d 0 = (ptsGet S.net i).getD d 0) :=
+  ⟨applyAll_same xs S, fun hr => applyAll_weights xs h hr hx⟩
+
+/-! ### non-vacuity -/
+
+-- the witness `exSurf` (rational surface, degrees 2×1, sizes 3×2, UNCLAMPED in u: domain `[2,3] × [0,1]`, the
+-- start point is not a control point; weights 1,2,1,3,1,2), its well-formedness `exSurf_wf` and the parameter
+-- pair `exT = (5/2, 1/3)` with `exT_inDom` are in `Lemmas/AffineAssembleWitness.lean`
+
+/-- non-vacuity of `rotate_moves_every_point` (and of `ShapeWF`, `InDom`): axis 1, `c = 3/5`, `s = 4/5` -/
+example : (rotate exSurf 1 (3/5) (4/5)).pointAt exT = rotateAbout 1 (3/5) (4/5) (startPoint exSurf) (exSurf.pointAt exT) :=
+  rotate_moves_every_point exSurf_wf (Or.inr rfl) 1 (3/5) (4/5) exT exT_inDom
+
+/-- … and the two sides are the concrete point `(-48/95, 15/19, 111/95)`; the centre is `(0, 1/2, 0)` -/
+example : (rotate exSurf 1 (3/5) (4/5)).pointAt exT = [-48/95, 15/19, 111/95] ∧ startPoint exSurf = [0, 1/2, 0] := by
+  decide +kernel
+
+/-- non-vacuity of the sequence theorems: rotate, translate, scale, rotate about another axis, translate -/
+example : (applyAll exSurf [.rotate 1 (3/5) (4/5), .translate [1,-2,1/2], .scale (-2), .rotate 0 (1/3) 2, .translate [0,0,1]]).pointAt exT
+    = ptMapAll exSurf [.rotate 1 (3/5) (4/5), .translate [1,-2,1/2], .scale (-2), .rotate 0 (1/3) 2, .translate [0,0,1]]
+        (exSurf.pointAt exT) :=
+  sequence_moves_every_point _ exSurf_wf
+    (by intro x hx; simp at hx; rcases hx with rfl|rfl|rfl|rfl|rfl <;> simp [Xform.Ok]) exT exT_inDom
+
+/-- non-vacuity of `startPoint_of_clamped_shape`: the rational volume `exVol` is clamped in all directions -/
+example : startPoint exVol = project (ptsGet exVol.net 0) := by
+  have hk : KnotsOk 1 (fnOf ([0,0,1,1] : List ℚ)) 2 :=
+    knotsOk_of_sorted 1 _ 2 (by decide +kernel) (by omega) (by decide +kernel)
+  have hcl : ClampedOk 1 (fnOf ([0,0,1,1] : List ℚ)) 2 := by
+    refine ⟨fun i h1 h2 => ?_, fun i h1 h2 => ?_, by decide +kernel⟩
+    · have : i = 1 := by omega
+      subst this; rfl
+    · have : i = 2 := by omega
+      subst this; rfl
+  have hwf : ShapeWF 3 exVol := by
+    refine ⟨Or.inr (Or.inr rfl), ?_, rfl, ?_, ?_⟩
+    · intro i hi
+      have hi' : i < 3 := hi
+      rcases i with _ | _ | _ | i
+      · exact hk
+      · exact hk
+      · exact hk
+      · omega
+    · show NetOk 4 exVol.net
+      intro pt hpt; simp [exVol] at hpt; rcases hpt with h|h|h|h|h|h|h|h <;> simp [h]
+    · intro _ pt hpt; simp [exVol] at hpt; rcases hpt with h|h|h|h|h|h|h|h <;> simp [h]
+  have := startPoint_of_clamped_shape hwf (by
+    intro i hi
+    have hi' : i < 3 := hi
+    rcases i with _ | _ | _ | i
+    · exact hcl
+    · exact hcl
+    · exact hcl
+    · omega)
+  simpa [exVol] using this
 
 end C10
